@@ -737,7 +737,9 @@ def rule_semtok_tables(prog):
         if not b["p"].startswith("lsp4spl::features::semantic_tokens") or "sig_in" not in b or "/tests" in c.file_of(b["sp"]):
             continue
         ins = [c.tstr(t_) for t_ in b["sig_in"]]
-        if ins and "tokens::Token" in ins[0] and "SemanticToken>" in c.tstr(b["sig_out"]).replace(" ", "") and "Option<" in c.tstr(b["sig_out"]):
+        # (the class may be decided by a function of its own that answers with the class, not with the finished token:
+        # `SemanticTokenType::of_plain_token(&TokenType) -> Option<Self>`)
+        if ins and "tokens::Token" in ins[0] and "SemanticToken" in c.tstr(b["sig_out"]).replace(" ", "") and "Option<" in c.tstr(b["sig_out"]):
             if any(m_.get("k") == "Match" and any(v.startswith(TT + "::") for a_ in m_["arms"] for v in hir.pat_variants_all(a_["pat"]))
                    for m_ in hir.nodes(b["body"])):
                 mapper = b
@@ -749,8 +751,12 @@ def rule_semtok_tables(prog):
         for m_ in hir.nodes(mapper["body"], "Match"):
             for arm in m_["arms"]:
                 vs = [last(v) for v in hir.pat_variants_all(arm["pat"]) if v.startswith(TT + "::")]
-                if not vs and arm.get("guard") is not None:
-                    for g in hir.nodes(arm["guard"], "MethodCall"):
+                roots_ = [arm["guard"]] if (not vs and arm.get("guard") is not None) else []
+                if not vs and arm.get("guard") is None and hir.pat_strip(arm["pat"]).get("k") in ("Binding", "Wild"):
+                    # `other => other.is_keyword().then_some(Keyword)`: the rest is classified by a predicate in the arm itself
+                    roots_ = [arm["body"]]
+                for root_ in roots_:
+                    for g in hir.nodes(root_, "MethodCall"):
                         tb = _single_table(Out("x"), prog, g["m"], "tokens::TokenType", TT)
                         if tb is not None:
                             _, (_, table, default, _) = tb
